@@ -179,29 +179,63 @@ class Store:
         return lo is not None and lo >= 0
 
     def prove_ge0(self, lin):
-        """True if `lin >= 0` follows from the store (sound, incomplete)."""
+        """True if `lin >= 0` follows from the store (sound, incomplete): goal-directed bounded combination
+        of recorded constraints (non-negative integer multipliers, depth <= 3) closed by interval arithmetic."""
         lin = self.canon(lin)
         if lin.is_const():
             return lin.c >= 0
-        if self._ge0_by_iv(lin):
+        key = (len(self.cons), len(self.sub), lin)
+        memo = self.__dict__.setdefault('_memo', {})
+        sig = self._sig()
+        if memo.get('sig') != sig:
+            memo.clear()
+            memo['sig'] = sig
+            memo['cons'] = [c for c in (self.canon(k) for k in self.cons) if not c.is_const()]
+        if lin in memo:
+            return memo[lin]
+        r = self._prove(lin, 3, memo['cons'])
+        memo[lin] = r
+        return r
+
+    def _sig(self):
+        return (len(self.cons), len(self.sub), tuple((s, b[0], b[1]) for s, b in self.iv.items()))
+
+    def _prove(self, lin, depth, cons):
+        if lin.is_const():
+            return lin.c >= 0
+        v = lin.c
+        bad_inf = None
+        for s, a in lin.t:
+            b = self.iv.get(s)
+            x = None if b is None else (b[0] if a > 0 else b[1])
+            if x is None:
+                if bad_inf is None:
+                    bad_inf = (s, a)
+                v = None
+            elif v is not None:
+                v += a * x
+        if v is not None and v >= 0:
             return True
-        cons = [self.canon(k) for k in self.cons]
-        for k in cons:
-            for m in (1, 2):
-                if self._ge0_by_iv(lin - k.scale(m)):
+        if depth == 0:
+            return False
+        targets = [bad_inf] if bad_inf is not None else list(lin.t)
+        for s, a in targets:
+            for k in cons:
+                b = 0
+                for s2, c2 in k.t:
+                    if s2 == s:
+                        b = c2
+                        break
+                if b == 0 or (b > 0) != (a > 0):
+                    continue
+                if a % b == 0:
+                    m = a // b
+                else:
+                    m = -((-abs(a)) // abs(b))
+                if m <= 0:
+                    continue
+                if self._prove(lin - k.scale(m), depth - 1, cons):
                     return True
-        n = len(cons)
-        if n <= 24:
-            for i in range(n):
-                for j in range(i, n):
-                    if self._ge0_by_iv(lin - cons[i] - cons[j]):
-                        return True
-        if n <= 10:
-            for i in range(n):
-                for j in range(i, n):
-                    for l in range(j, n):
-                        if self._ge0_by_iv(lin - cons[i] - cons[j] - cons[l]):
-                            return True
         return False
 
     def decide_ge0(self, lin):
